@@ -36,6 +36,8 @@ type ShardResult struct {
 	Done        bool           `json:"done"`
 	Abort       string         `json:"abort,omitempty"` // "cpu" or "heap": watchdog fired in AbortCase
 	AbortCase   int            `json:"abort_case,omitempty"`
+	AbortSig    string         `json:"abort_sig,omitempty"` // signature the running case declared for a hang
+	curHangSig  string
 	hashSet     map[uint64]struct{}
 	mu          sync.Mutex
 }
@@ -81,6 +83,14 @@ func (c *C) Distinct(h uint64) {
 
 func (c *C) DistinctBytes(b []byte) { c.Distinct(Hash64(b)) }
 func (c *C) DistinctStr(s string)  { c.Distinct(Hash64([]byte(s))) }
+
+// SetHangSig declares the signature a watchdog abort during the current case must carry
+// (so that a hang with a known cause is distinguishable from any other hang).
+func (c *C) SetHangSig(sig string) {
+	c.res.mu.Lock()
+	c.res.curHangSig = sig
+	c.res.mu.Unlock()
+}
 
 // Sample keeps a few actual cases for the evidence file.
 func (c *C) Sample(v any) {
